@@ -606,6 +606,8 @@ def do_hold(sim, rec):
                 names = rest[6:-1].split(",")
                 obj = getattr(act.sut, side).multi(names)
                 obj.asdict()
+                obj.aslist()
+                obj.asdict(transpose=True)
             else:
                 side, name, args, kwargs = parse_spec(spec)
                 obj = sut_stat(act.sut, side, name, args, kwargs)
@@ -642,13 +644,31 @@ def check_holds(sim, w, rec, act):
             elif "multi" in spec:
                 side, rest = spec.split(".", 1)
                 names = rest[6:-1].split(",")
-                d = h["obj"].asdict(transpose=True)
                 first = names[0]
                 exp = model_stat(m, side, first, [], {})
+                ids = list(exp)
+                mobj = h["obj"]
+                d = mobj.asdict(transpose=True)
                 key = [k for k in d if k.startswith(first)][0]
-                if list(d[key]) != list(exp) or any(not eqv(d[key][i], exp[i]) for i in exp):
-                    w.find({"C06"}, "held_stat_stale", dict(rec, op="held:" + spec), cur.kind,
-                           f"multi-stat captured {age} mutations ago gives {d[key]!r}, expected {exp!r}")
+                outs = {
+                    "asdict(transpose=True)": (list(d[key]), [d[key][i] for i in d[key]]),
+                }
+                d2 = mobj.asdict()
+                outs["asdict()"] = (list(d2), [d2[i][key] for i in d2])
+                d3 = mobj.asdict(inner=list)
+                outs["asdict(inner=list)"] = (list(d3), [d3[i][0] for i in d3])
+                outs["aslist()"] = (ids, [row[0] for row in mobj.aslist()])
+                outs["aslist(inner=dict)"] = (ids, [row[key] for row in mobj.aslist(inner=dict)])
+                outs["aslist(transpose=True)"] = (ids, list(mobj.aslist(transpose=True)[0]))
+                if ids:
+                    outs["asnumpy()"] = (ids, [r_[0] for r_ in mobj.asnumpy().tolist()])
+                for how, (got_ids, got_vals) in outs.items():
+                    if got_ids != ids or len(got_vals) != len(ids) or any(
+                            not eqv(v, exp[i]) for v, i in zip(got_vals, ids)):
+                        w.find({"C06"}, "held_stat_stale", dict(rec, op="held:" + spec), cur.kind,
+                               f"multi-stat captured {age} mutations ago: {how} gives ids {got_ids!r} values "
+                               f"{got_vals!r}, expected {exp!r}")
+                        break
             else:
                 eval_spec(w, rec, cur, spec, h["obj"], held=True)
         except Exception as ex:  # noqa
